@@ -154,7 +154,12 @@ class Printer:
         return g().join(r.dirs + [r.name]) + " =" + g() + self.expr(r.body) + ";"
 
     def grammar(self, rules):
-        return "\n".join(self.rule(r) for r in rules) + "\n"
+        body = "\n".join(self.rule(r) for r in rules) + "\n"
+        if self.fancy and self.rnd is not None:
+            # what may follow the last rule: nothing more, blank space, or comment lines (a comment ends with its newline)
+            body = self.rnd.choice(["", "# leading comment\n", "\n\n", " \t"]) + body
+            body += self.rnd.choice(["", "\n", "  \n\t", "# the end\n", "\n# c\n# d\n", "# last\n\n"])
+        return body
 
 
 # ----------------------------------------------------------------------------
